@@ -67,3 +67,10 @@ Definition get_ancestral_genome_by_taxon (t : stree) (st : lstate) (p : taxon) :
 (* Ham.get_ancestral_genome_by_mrca_of_genome_set on two genomes *)
 Definition get_mrca_genome (t : stree) (st : lstate) (g1 g2 : taxon) : result taxon :=
   get_ancestral_genome_by_taxon t st (lcs g1 g2).
+
+(* ... on a set of genomes (the nodes of pairwise different genomes); fewer than two: ValueError *)
+Definition get_mrca_genome_set (t : stree) (st : lstate) (gs : list taxon) : result taxon :=
+  match gs with
+  | x :: (y :: r) => get_ancestral_genome_by_taxon t st (fold_left lcs (y :: r) x)
+  | _ => Err ValueError
+  end.
